@@ -172,7 +172,7 @@ class ActiveTrailNodes(Contract):
         return mem_or_empty(o)
 
     def theory(self, ex, args, E):
-        key = (id(args), E.get_id())
+        key = (self.Z(args).get_id(), E.get_id())
         if getattr(self, "_theory", None) is None or self._theory[0] != key:
             self._theory = (key, ReachTheory(ex, E, self.Z(args)))
         return self._theory[1]
